@@ -62,10 +62,12 @@ def setStep (s : List Int) (t : List String) : List Int × String :=
   | _ => (s, "bad-op")
 
 /-- the Map is modelled only as the finite map it must behave like -/
-def mapStep (m : List (Int × Int)) (t : List String) : List (Int × Int) × String :=
+def mapStep (m : List (Int × Int)) (t : List String) (quiet : Bool := false) : List (Int × Int) × String :=
   let sorted (m : List (Int × Int)) := m.mergeSort (fun a b => a.1 ≤ b.1)
+  -- quiet: the harness does not list the contents (listing them walks the map, which reorganises it)
   let st (m : List (Int × Int)) (res : String) :=
     let kv := (sorted m).map fun (k, v) => s!"{k}={v}"
+    if quiet then (m, res ++ s!" ; len={m.length}") else
     (m, res ++ " ; " ++ (if kv.isEmpty then "-" else ",".intercalate kv) ++ s!" len={m.length}")
   let lookup (k : Int) := (m.find? (·.1 == k)).map (·.2)
   let del (k : Int) := m.filter (·.1 != k)
@@ -130,6 +132,7 @@ def utlStep (s : UtlState) (toks : List String) : UtlState × String :=
   | "slice" :: t => let (g, o) := sliceStep s.gs t; ({ s with gs := g }, o)
   | "set" :: t => let (x, o) := setStep s.set t; ({ s with set := x }, o)
   | "map" :: t => let (x, o) := mapStep s.mp t; ({ s with mp := x }, o)
+  | "mapq" :: t => let (x, o) := mapStep s.mp t true; ({ s with mp := x }, o)
   | "em" :: t => emStep s t
   | ["b64id", r, seq] => (s, hexOfChars (generateId (unhex r) seq.toNat!))
   | ["yeast", "enc", n] => (s, hexOfChars (yEncode n.toNat!))
